@@ -3,22 +3,23 @@ package main
 // Rules added after the third seeding round and the mechanical mutation sweep, per property (appended
 // to the property's explanation so that evidence and MANIFEST name every rule that can report).
 var laterRules = map[string]string{
-	"C01": "(R11) BlockRequestsEmpty answers true only where both request lists were found empty; (R12) processBlocks leaves with ProcessBlock's error only behind inequality tests against every sentinel ProcessBlock returns; (R13) admitted block requests go out (AddInvVect followed by a hand-over, replaced only after hand-over, new message after hand-over); (R14) CheckTimeouts: elapsed > constant limit per watched request, expired => non-nil error, request times loaded behind their nil tests.",
+	"C01": "(R11) BlockRequestsEmpty answers true only where both request lists were found empty; (R12) processBlocks leaves with ProcessBlock's error only behind inequality tests against every sentinel ProcessBlock returns; (R13) admitted block requests go out (AddInvVect followed by a hand-over, replaced only after hand-over, new message after hand-over); (R14) CheckTimeouts: elapsed > constant limit per watched request, expired => non-nil error, request times loaded behind their nil tests; (R15) Node.restart is never called only behind isStopping()==true; (R16) ClearBlockRequestsAfter cuts right after the fork point; (R17) SetPendingSync only for an empty or single-header reply; (R18) NextBlock moves the last saved hash with the pop.",
 	"C02": "(R11) Revert collects the hashes of exactly the heights new tip+1 .. old tip (counted-loop interval of the getter's height argument); (R12) the recorded start height is LastHeight()+1.",
-	"C03": "(R13) fetched outputs are read at a bounded, advancing cursor; (R14) the in-mempool flag is never constant true where the mempool is not consulted; (R15) confirmation notifications follow a merkle-proof store and depth 0; (R16) parent-output index behind index < len; (R17) per-tx flag lists aligned with the delivered list.",
+	"C03": "(R13) fetched outputs are read at a bounded, advancing cursor; (R14) the in-mempool flag is never constant true where the mempool is not consulted; (R15) confirmation notifications follow a merkle-proof store and depth 0; (R16) parent-output index behind index < len; (R17) per-tx flag lists aligned with the delivered list; (R18) the parent read for an input is fetched in the same iteration.",
 	"C04": "(R8) confirmation notifications follow a merkle-proof store and depth 0 (literal depths are 0); (R9) MerkleProof codec pair.",
-	"C05": "(R9) the loop over a new tx's conflicts visits every conflict; (R10) the conflict accumulator extends itself; (R11) removal splices remove exactly one element; (R12) created mempool entries are registered.",
+	"C05": "(R9) the loop over a new tx's conflicts visits every conflict; (R10) the conflict accumulator extends itself; (R11) removal splices remove exactly one element; (R12) created mempool entries are registered; (R13) the conflict list never aliases an index list.",
 	"C06": "(R10) the cancel steps are reached only for conflicting txs other than the block tx itself.",
 	"C07": "(R7) the delay checker visits every newly safe tx; (R8) memPoolTx.trusted is set only from a trusted source.",
 	"C08": "(R8) subscribe / unsubscribe loops visit every listed push data; (R9) removal splices; (R10) IsRelevant answers true only behind checkContracts()==true or a subscribed hash comparing equal.",
-	"C09": "(R13) the three height getters agree on guards, cache index, file read and offset (linear normal forms); (R14) GetHeaders reads exactly maxCount heights from the resolved start; (R15) Revert's file walk starts below the tip's file.",
+	"C09": "(R13) the three height getters agree on guards, cache index, file read and offset (linear normal forms); (R14) GetHeaders reads exactly maxCount heights from the resolved start; (R15) Revert's file walk starts below the tip's file; (R16) the latest headers start at LastHeight()-maxCount+1.",
 	"C10": "(R8) = C09.R15, (R9) = C09.R13, (R10) = C02.R11.",
-	"C11": "(R7) the stored unconfirmed set is removed only where the in-memory set was found empty.",
+	"C11": "(R7) the stored unconfirmed set is removed only where the in-memory set was found empty; (R8) SaveTxState writes only after serialising succeeded.",
 	"C12": "(R6) = C07.R8, (R7) = C02.R11, (R8) parent-output index of a peer's tx behind index < len.",
-	"C13": "(R11) a not-next header reaches AddBlockRequest only through the false edges of all three already-have tests; (R12) = C01.R13.",
-	"C14": "(R8) the request-age test applies to entries that were requested; (R9) created mempool entries are registered; (R10) a transmitted getdata batch is not carried into the next iteration.",
-	"C15": "(R2) counted loops must run exactly `bound` times (trip-count normalisation).",
-	"C16": "(R8) the drain loop is entered before routing (edge-threaded); (R11) removal splices.",
+	"C13": "(R11) a not-next header reaches AddBlockRequest only through the false edges of all three already-have tests; (R12) = C01.R13; (R13) = C01.R16; (R14) = C01.R18.",
+	"C14": "(R8) the request-age test applies to entries that were requested; (R9) created mempool entries are registered; (R10) a transmitted getdata batch is not carried into the next iteration; (R11) the request time is written only when requesting; (R12) CleanupBlock forwards on every successful path.",
+	"C15": "(R2) counted loops must run exactly `bound` times (trip-count normalisation); (R6) = C11.R8.",
+	"C16": "(R8) the drain loop is entered before routing (edge-threaded); (R11) removal splices; (R12) Headers responses routed by RequestHeight.",
+	"C19": "(R10) = C01.R15.",
 	"C18": "(R9) runConnection resets accepted / handshakeComplete before starting the connection's goroutines.",
 }
 
